@@ -303,12 +303,58 @@ def threads(ctx, seed, ref, nthreads):
             break
 
 
+def cold_threads(ctx, seed, nthreads):
+    """threads that all miss the cache of the SAME memoised function with DIFFERENT arguments at the same time; afterwards
+    every key is queried again and compared with the uncached function.  Cold keys without touching the cache: the data
+    directory spelled with trailing slashes (a different argument, the same directory)."""
+    from basis_set_exchange import memo, compose, api
+    rng = random.Random(seed)
+    dd = os.path.join(paths.REPO, 'basis_set_exchange', 'data')
+    md = store.metadata()
+    names = rng.sample(sorted(md), nthreads * 4)
+    variant = dd + '/' * (1 + seed % 1000) + '.' * (seed % 2)
+    jobs = []
+    for n in names:
+        e = md[n]
+        jobs.append(('compose.compose_table_basis', (e['versions'][e['latest_version']]['file_relpath'], variant)))
+    fams = sorted({e['family'] for e in md.values()})
+    jobs += [('bse.get_family_notes', (f, variant)) for f in rng.sample(fams, min(len(fams), nthreads))]
+    jobs += [('bse.get_basis_notes', (n, variant)) for n in names[:nthreads]]
+    rng.shuffle(jobs)
+    memo.memoize_enabled = True
+    barrier = threading.Barrier(nthreads)
+
+    def worker(i):
+        barrier.wait()
+        for j in range(i, len(jobs), nthreads):
+            local_call(jobs[j][0], jobs[j][1], {})
+
+    ts = [threading.Thread(target=worker, args=(i, )) for i in range(nthreads)]
+    for t in ts:
+        t.start()
+    for t in ts:
+        t.join()
+    ctx.case(('cold-threads', seed, nthreads), True, 'cold-threads-%d' % nthreads)
+    for n, a in jobs:
+        cached = norm(local_call(n, a, {}))
+        memo.memoize_enabled = False
+        try:
+            plain = norm(local_call(n, a, {}))
+        finally:
+            memo.memoize_enabled = True
+        if cached != plain:
+            ctx.violation('memo.BSEMemoize', 'threads:cold-keys', 'after %d threads missed the cache of %s at the same time with different arguments, '
+                          'the call %s%r is answered with the result of another call' % (nthreads, n, n, (a[0], '<data_dir>')),
+                          {'kind': 'cold-threads', 'seed': seed, 'nthreads': nthreads})
+            break
+
+
 def run(ctx):
     ctx.rule = ('(a) every positional/keyword/default binding shape (incl. surplus positionals, unknown and doubly bound names) of every '
                 'memoised signature: memo._make_key vs the extracted model make_key, Python inspect.signature.bind vs the model bind_call, '
                 'and the oracle "a key exists iff the call is valid and equals the bound values" (exhaustive); (b) random histories of API '
                 'calls with deep mutation of returned objects and toggles of memoize_enabled, each result compared with a separate process '
-                'that has memoisation disabled; (c) the same calls from 2..16 threads with concurrent toggles. Non-trivial: a repeated call '
+                'that has memoisation disabled; (c) the same calls from 2..16 threads with concurrent toggles; (d) 4..16 threads that miss the cache of one memoised function at the same time with different arguments (cold keys), every key re-queried afterwards. Non-trivial: a repeated call '
                 'after a mutation or toggle; a shape mixing positional and keyword arguments')
     ctx.trusted.append('pickle.dumps/loads as an immutable snapshot; atomicity of one dict get/set under the GIL (the concurrent theorem interleaves the model\'s atomic steps; real CPython interleavings are sampled)')
     ctx.assumptions.append('the data directory is not modified during the run')
@@ -319,6 +365,8 @@ def run(ctx):
             history(ctx, ctx.seed * 13 + i, ref)
         for i, nt in enumerate([2, 4, 8, 16] * ctx.budget(1, 10)):
             threads(ctx, ctx.seed * 7 + i, ref, nt)
+        for i, nt in enumerate([4, 8, 16] * ctx.budget(1, 10)):
+            cold_threads(ctx, ctx.seed * 3 + i, nt)
     finally:
         ref.close()
 
@@ -331,6 +379,8 @@ def replay(ctx, rec):
             history(ctx, r['seed'], ref)
         elif r.get('kind') == 'threads':
             threads(ctx, r['seed'], ref, r['nthreads'])
+        elif r.get('kind') == 'cold-threads':
+            cold_threads(ctx, r['seed'], r['nthreads'])
         else:
             binding_shapes(ctx)
     finally:
